@@ -1591,6 +1591,12 @@ func (p *Parser) parseIndex(leftNode ast.Node) ast.Node {
 		}
 		p.nextToken() // move to the second index
 		secondIndex = p.parseExpression(LOWEST)
+		if secondIndex == nil {
+			// A line break after the colon yields no expression but
+			// consumes what follows: x[1:\n2] would be read as x[1:]
+			p.setTokenError(p.curToken, "invalid index expression")
+			return nil
+		}
 	}
 	if !p.expectPeek("an index expression", token.RBRACKET) {
 		return nil
